@@ -14,15 +14,16 @@ pub fn nofmt(_args: core::fmt::Arguments<'_>) -> String {
 }
 
 macro_rules! harnesses {
-    ( $( h($name:ident, $unwind:literal, $body:path, $kind:literal, $props:literal, $fns:literal, $bound:literal); )* ) => {
+    ( $modname:ident, $regfn:ident; $( h($name:ident, $unwind:literal, $body:path, $kind:literal, $props:literal, $fns:literal, $bound:literal); )* ) => {
         #[cfg(kani)]
-        mod proofs {
+        mod $modname {
             use super::*;
             $(
                 #[kani::proof]
                 #[kani::unwind($unwind)]
                 #[kani::stub(std::hash::RandomState::new, crate::reg::fixed_keys)]
                 #[kani::stub(alloc::fmt::format, crate::reg::nofmt)]
+                #[allow(non_snake_case)]
                 fn $name() {
                     let mut s = crate::src::KaniSrc;
                     $body(&mut s);
@@ -30,7 +31,7 @@ macro_rules! harnesses {
                 }
             )*
         }
-        pub fn registry() -> Vec<(&'static str, fn(&mut crate::src::ReplaySrc))> {
+        pub fn $regfn() -> Vec<(&'static str, fn(&mut crate::src::ReplaySrc))> {
             vec![ $( (stringify!($name), (|s: &mut crate::src::ReplaySrc| $body(s)) as fn(&mut crate::src::ReplaySrc)), )* ]
         }
     };
